@@ -278,20 +278,30 @@ def r_reset(chk):
         raise AnalysisError("reset_p_values: expected one loop over contests.items()")
     outer = outer[0]
     con_alias = aliases(outer)
-    inner = [l for l in outer.body if isinstance(l, ast.For) and items_loop(l)]
-    if len(inner) != 1:
-        raise AnalysisError("reset_p_values: expected one inner loop over assertions")
-    inner = inner[0]
-    ak, av, ad = items_loop(inner)
+    # the loop(s) over the contest's assertions: `for a, asn in con.assertions.items()` or `for asn in con.assertions.values()`
+    inner_all = []
+    for l in outer.body:
+        if not isinstance(l, ast.For):
+            continue
+        il = items_loop(l)
+        if il and il[2] in {a + ".assertions" for a in con_alias}:
+            inner_all.append((l, il[1]))
+        elif isinstance(l.target, ast.Name):
+            for it in ast.walk(l.iter):
+                if isinstance(it, ast.Call) and isinstance(it.func, ast.Attribute) and it.func.attr == "values" and not it.args \
+                        and norm(it.func.value) in {a + ".assertions" for a in con_alias}:
+                    inner_all.append((l, l.target.id))
     vals = {}
-    for t, v, s in stores(inner):
-        if isinstance(t, ast.Attribute) and norm(t.value) == av and parent(s) is inner:
-            vals[t.attr] = v
+    inner = inner_all[0][0] if inner_all else outer
+    for l, av in inner_all:
+        for t, v, s in stores(l):
+            # a, b = 1, []  stores through a tuple target as well
+            if isinstance(t, ast.Attribute) and norm(t.value) == av and parent(s) is l and whole_collection(l.iter):
+                vals[t.attr] = v
     ok = "p_value" in vals and is_const(vals["p_value"], 1) and "p_history" in vals and isinstance(vals["p_history"], ast.List) \
         and not vals["p_history"].elts and "proved" in vals and is_const(vals["proved"], False)
     esc = [n for n in walk_local(outer) if isinstance(n, (ast.Break, ast.Continue, ast.Return))]
-    full = whole_collection(outer.iter) and whole_collection(inner.iter) and not esc and \
-        ad in {a + ".assertions" for a in con_alias}
+    full = bool(inner_all) and whole_collection(outer.iter) and all(whole_collection(l.iter) for l, av in inner_all) and not esc
     chk.ob("C09.R5", where, "reset-values", ok,
            "every assertion gets p_value 1, a fresh empty history and proved False (unconditional stores)", node=inner,
            stored={k: norm(v) for k, v in vals.items()})
